@@ -1,4 +1,6 @@
 import SaphyrVerif.Spec.Interp
+import SaphyrVerif.Lemmas.C03
+import SaphyrVerif.Lemmas.C03_Collect
 /-!
 # C03 — merge keys (`<<`) equal the explicitly merged mapping with fixed precedence
 
@@ -8,16 +10,23 @@ That the map access of the typed deserializer delivers `effEntries` is part of t
 -/
 namespace SaphyrVerif.Props.C03
 open SaphyrVerif SaphyrVerif.Scalars SaphyrVerif.Pump SaphyrVerif.De SaphyrVerif.Spec
+open SaphyrVerif.Lemmas
 
 def keyFps (es : List (ENode × ENode)) : List FP := es.map fun p => fpOf p.1
 
 /-- (T) quoted_or_tagged_is_plain_key: only the plain, untagged scalar `<<` is a merge key -/
 theorem merge_key_iff (v : List Char) (tag : Nat) (rt : Option (List Char)) (st : Style) (a : Nat) (l : Loc) :
     isMergeKeyNode (.scalar v tag rt st a l) = true ↔ v = ['<', '<'] ∧ st = .plain ∧ tag = 0 := by
-  sorry
+  simp only [isMergeKeyNode, tagNone, Bool.and_eq_true, beq_iff_eq]
+  constructor
+  · rintro ⟨⟨h1, h2⟩, h3⟩; exact ⟨h3, h1, h2⟩
+  · rintro ⟨h3, h1, h2⟩; exact ⟨⟨h1, h2⟩, h3⟩
 
 theorem container_is_not_merge_key (n : ENode) (h : isMergeKeyNode n = true) : ∃ v tag rt st a l, n = .scalar v tag rt st a l := by
-  sorry
+  cases n with
+  | scalar v tag rt st a l => exact ⟨v, tag, rt, st, a, l, rfl⟩
+  | seq => simp [isMergeKeyNode] at h
+  | map => simp [isMergeKeyNode] at h
 
 mutual
 /-- what may stand after `<<:` — a mapping (whose own merge values are valid), a sequence of valid
@@ -34,16 +43,58 @@ def validSourceE : List (ENode × ENode) → Bool
   | (k, v) :: es => (if isMergeKeyNode k then validSource v else true) && validSourceE es
 end
 
+mutual
+theorem sourceEntries_isSome : ∀ n : ENode, (sourceEntries n).isSome = validSource n
+  | .scalar v _ _ st _ _ => by
+    simp only [sourceEntries, validSource]
+    split <;> simp_all
+  | .map _ _ _ entries => by simp only [sourceEntries, validSource]; exact mapSourceEntries_isSome entries
+  | .seq _ _ _ _ _ items => by simp only [sourceEntries, validSource]; exact seqSourceEntries_isSome items
+theorem mapSourceEntries_isSome : ∀ es : List (ENode × ENode), (mapSourceEntries es).isSome = validSourceE es
+  | [] => by simp [mapSourceEntries, validSourceE]
+  | (k, v) :: rest => by
+    have h1 := sourceEntries_isSome v
+    have h2 := mapSourceEntries_isSome rest
+    simp only [mapSourceEntries, validSourceE]
+    split
+    · rw [← h1, ← h2]
+      cases sourceEntries v <;> cases mapSourceEntries rest <;> simp
+    · rw [← h2]
+      cases mapSourceEntries rest <;> simp
+theorem seqSourceEntries_isSome : ∀ ns : List ENode, (seqSourceEntries ns).isSome = validSourceL ns
+  | [] => by simp [seqSourceEntries, validSourceL]
+  | n :: ns => by
+    have h1 := sourceEntries_isSome n
+    have h2 := seqSourceEntries_isSome ns
+    simp only [seqSourceEntries, validSourceL]
+    rw [← h1, ← h2]
+    cases sourceEntries n <;> cases seqSourceEntries ns <;> simp
+end
+
 /-- (T) merge_value_kind_check: a merge value is rejected exactly when it is not a mapping, a (nested)
 sequence of mappings, or null -/
 theorem merge_value_kind_check (n : ENode) : (sourceEntries n).isSome = validSource n := by
-  sorry
+  exact sourceEntries_isSome n
 
 /-- (T) the effective entries are free of merge keys and of repeated keys … -/
 theorem eff_no_merge_no_dup (dup : DupPolicy) (entries es : List (ENode × ENode))
     (h : effEntries dup entries = some es) (hdup : dup ≠ .lastWins) :
     (∀ e ∈ es, isMergeKeyNode e.1 = false) ∧ (keyFps es).Nodup := by
-  sorry
+  obtain ⟨ownKept, batches, h1, h2, rfl⟩ := (C03.effEntries_eq_some_iff dup entries es).1 h
+  obtain ⟨hm1, hm2, hm3⟩ := C03.eff_merged_props ownKept _ batches h2
+  obtain ⟨ho1, _⟩ := C04.applyPolicy_nodup_of_ne_lastWins dup hdup _ [] ownKept h1
+  have hsub := C04.applyPolicy_sublist dup _ [] ownKept h1
+  constructor
+  · intro e he
+    rcases List.mem_append.1 he with he | he
+    · exact C03.splitEntries_own_no_merge entries e (hsub.subset he)
+    · exact hm1 e he
+  · simp only [keyFps, List.map_append]
+    refine List.nodup_append.2 ⟨ho1, hm2, ?_⟩
+    intro a ha b hb hab
+    obtain ⟨o, ho, rfl⟩ := List.mem_map.1 ha
+    obtain ⟨m, hm, rfl⟩ := List.mem_map.1 hb
+    exact hm3 m hm o ho hab.symm
 
 /-- (T) merge_eq_explicit: … so "the mapping written out in full" (its effective entries as an ordinary
 mapping) reads back as exactly the same entries under every policy: deserializing the merge form and
@@ -51,7 +102,10 @@ the explicit form is the same thing. -/
 theorem merge_eq_explicit (dup : DupPolicy) (entries es : List (ENode × ENode))
     (h : effEntries dup entries = some es) (hdup : dup ≠ .lastWins) :
     ∀ dup', effEntries dup' es = some es := by
-  sorry
+  obtain ⟨hnm, hnd⟩ := eff_no_merge_no_dup dup entries es h hdup
+  intro dup'
+  rw [C03.effEntries_eq_some_iff, C03.splitEntries_of_no_merge es hnm]
+  exact ⟨es, [], C04.applyPolicy_nodup dup' es [] hnd (by simp), by simp, by simp [dropSeen]⟩
 
 /-- (T) own_overrides_merged: every own entry kept by the policy is delivered, before all merged ones, and
 no merged entry repeats an own key — under every duplicate-key policy (no error, no override). -/
@@ -59,7 +113,8 @@ theorem own_overrides_merged (dup : DupPolicy) (entries es : List (ENode × ENod
     (h : effEntries dup entries = some es) :
     ∃ ownKept merged, applyPolicy dup (splitEntries entries).1 [] = some ownKept ∧ es = ownKept ++ merged ∧
       (∀ m ∈ merged, ∀ o ∈ ownKept, fpOf m.1 ≠ fpOf o.1) := by
-  sorry
+  obtain ⟨ownKept, batches, h1, h2, rfl⟩ := (C03.effEntries_eq_some_iff dup entries es).1 h
+  exact ⟨ownKept, _, h1, rfl, (C03.eff_merged_props ownKept _ batches h2).2.2⟩
 
 /-- (T) later_merge_overrides_earlier: with two merge entries, for a key present in both sources the entry
 of the LATER `<<` is the one delivered. -/
@@ -68,7 +123,13 @@ theorem later_merge_overrides_earlier (dup : DupPolicy) (l1 l2 l3 l4 : Loc) (a b
     effEntries dup
       [(.scalar ['<', '<'] 0 none .plain 0 l1, .map a l2 l2 [(k1, v1)]),
        (.scalar ['<', '<'] 0 none .plain 0 l3, .map b l4 l4 [(k2, v2)])] = some [(k2, v2)] := by
-  sorry
+  have hb : (fpOf k2 == fpOf k1) = true := by rw [hk]; exact C04.fp_beq_self _
+  have hmk : ∀ l, isMergeKeyNode (.scalar ['<', '<'] 0 none .plain 0 l) = true := fun _ => rfl
+  have s1 : sourceEntries (.map a l2 l2 [(k1, v1)]) = some [(k1, v1)] := by
+    simp [sourceEntries, mapSourceEntries, hm1]
+  have s2 : sourceEntries (.map b l4 l4 [(k2, v2)]) = some [(k2, v2)] := by
+    simp [sourceEntries, mapSourceEntries, hm2]
+  simp [effEntries, splitEntries, hmk, applyPolicy, s1, s2, dropSeen, hb]
 
 /-- (T) in a merge sequence a later element overrides an earlier one -/
 theorem later_seq_element_overrides_earlier (dup : DupPolicy) (l1 l2 l3 l4 : Loc)
@@ -76,7 +137,12 @@ theorem later_seq_element_overrides_earlier (dup : DupPolicy) (l1 l2 l3 l4 : Loc
     effEntries dup
       [(.scalar ['<', '<'] 0 none .plain 0 l1,
         .seq 0 0 none l2 l2 [.map 0 l3 l3 [(k1, v1)], .map 0 l4 l4 [(k2, v2)]])] = some [(k2, v2)] := by
-  sorry
+  have hb : (fpOf k2 == fpOf k1) = true := by rw [hk]; exact C04.fp_beq_self _
+  have hmk : ∀ l, isMergeKeyNode (.scalar ['<', '<'] 0 none .plain 0 l) = true := fun _ => rfl
+  have s1 : sourceEntries (.seq 0 0 none l2 l2 [.map 0 l3 l3 [(k1, v1)], .map 0 l4 l4 [(k2, v2)]]) =
+      some [(k2, v2), (k1, v1)] := by
+    simp [sourceEntries, seqSourceEntries, mapSourceEntries, hm1, hm2]
+  simp [effEntries, splitEntries, hmk, applyPolicy, s1, dropSeen, hb]
 
 /-- (T) collect_entries_spec: the model's expansion of a merge value (`pending_entries_from_events`, the
 recursive `collect_entries_from_map`) yields exactly `sourceEntries`, entry by entry (fingerprints, recorded
@@ -89,7 +155,17 @@ theorem collect_entries_spec (src : ENode) (loc ref : Loc) :
           es.map (fun e => (fpOf e.1, eflatten e.1, fpOf e.2, eflatten e.2))
       | none, .error _ => True
       | _, _ => False := by
-  sorry
+  refine ⟨2 * (eflatten src).length, fun fuel hf => ?_⟩
+  obtain ⟨h1, h2⟩ := C03.pendingFromEvents_spec src loc ref hf
+  cases hs : sourceEntries src with
+  | some es =>
+    obtain ⟨ps, hp, hps⟩ := h1 es hs
+    rw [hp]
+    exact hps
+  | none =>
+    obtain ⟨e, hp⟩ := h2 hs
+    rw [hp]
+    trivial
 
 -- (E) non-vacuity
 def sc (s : String) (l : Loc) : ENode := .scalar s.toList 0 none .plain 0 l
@@ -100,5 +176,15 @@ example :
       (sc "<<" 8, .seq 0 0 none 9 9 [mk [(sc "b" 10, sc "4" 11)], mk [(sc "c" 12, sc "5" 13), (sc "b" 14, sc "6" 15)]])]).map
       (fun es => es.map fun p => (p.1.loc, p.2.loc)) = some [(1, 2), (12, 13), (14, 15)] := by decide
 example : (sourceEntries (sc "x" 1)).isSome = false := by decide
+
+#print axioms merge_key_iff
+#print axioms container_is_not_merge_key
+#print axioms merge_value_kind_check
+#print axioms eff_no_merge_no_dup
+#print axioms merge_eq_explicit
+#print axioms own_overrides_merged
+#print axioms later_merge_overrides_earlier
+#print axioms later_seq_element_overrides_earlier
+#print axioms collect_entries_spec
 
 end SaphyrVerif.Props.C03
